@@ -1,17 +1,34 @@
 #!/bin/bash
-# integrate.sh <group> [--apply]: show (or copy) what a builder workspace /work/<group>/verif adds/changes relative to /verif.
+# integrate.sh <group> [--apply]: copy ONLY the files a builder group owns from /work/<group>/verif into /verif.
+# (Workspaces are full copies of /verif and contain stale copies of everybody else's packages.)
 set -euo pipefail
 G="$1"; APPLY="${2:-}"
-SRC=/work/$G/verif/
-OPTS=(-rlpt --checksum --exclude=.git --exclude=build --exclude='*.vo' --exclude='*.vok' --exclude='*.vos' --exclude='*.glob' --exclude='.*.aux' --exclude='.lia.cache' --exclude='.nia.cache'
-      --exclude=coq/Makefile --exclude=coq/Makefile.conf --exclude=coq/.Makefile.d --exclude=coq/_CoqProject --exclude=harness/go.mod --exclude=harness/go.sum
-      --exclude=__pycache__ --exclude='*.pyc' --exclude=evidence --exclude=MANIFEST.json --exclude=DESIGN.md --exclude=BUILDING.md --exclude=properties.jsonl
-      --exclude=known_findings.json --exclude=corr/lib.py --exclude=corr/run_check.py --exclude=corr/build_coq.sh --exclude=corr/build_harness.sh --exclude=corr/setup.sh
-      --exclude=corr/gen_manifest.py --exclude=corr/run_all.py --exclude=corr/try_patch.sh --exclude=corr/mkwork.sh --exclude=corr/integrate.sh --exclude=corr/confirm_seed.sh
-      --exclude=harness/main.go --exclude=harness/env.go --exclude=harness/coqfmt.go --exclude=coq/Base/Store.v --exclude=coq/Base/IntDec.v --exclude=coq/Base/Util.v --exclude=seeded)
-if [ "$G" != gN ]; then OPTS+=(--exclude=coq/C15 --exclude=harness/s_c15.go --exclude=corr/props/c15.py --exclude=corr/props/common.py); fi
-if [ "$APPLY" = "--apply" ]; then rsync "${OPTS[@]}" -v "$SRC" /verif/ | grep -v '/$' ; else rsync "${OPTS[@]}" -n -v "$SRC" /verif/ | grep -v '/$'; fi
-echo "--- shared files the group modified (NOT copied; review by hand):"
-for f in corr/lib.py corr/run_check.py corr/build_coq.sh corr/build_harness.sh harness/main.go harness/env.go harness/coqfmt.go coq/Base/Store.v coq/Base/IntDec.v coq/Base/Util.v corr/props/common.py; do
-  if [ -f "$SRC$f" ] && ! cmp -s "$SRC$f" "/verif/$f"; then echo "  CHANGED: $f"; fi
+SRC=/work/$G/verif
+case "$G" in
+  gA)  OWN="coq/C01 coq/C03 coq/Ledger harness/s_c01*.go harness/s_c03*.go corr/props/c01.py corr/props/c03.py design/C01*.md design/C03*.md known_findings.d/C01.json known_findings.d/C03.json repo_patches/*c01* repo_patches/*c03*";;
+  gB)  OWN="coq/C02 coq/Gen coq/Base/IntDec2.v harness/s_c02*.go harness/s_kernels*.go corr/props/c02.py corr/gen_kernels.sh design/C02*.md known_findings.d/C02.json tools/kernel2v repo_patches/*c02*";;
+  gC)  OWN="coq/C04 coq/C05 harness/s_c04*.go harness/s_c05*.go corr/props/c04.py corr/props/c05.py design/C04*.md design/C05*.md known_findings.d/C04.json known_findings.d/C05.json repo_patches/*c04* repo_patches/*c05*";;
+  gD1) OWN="coq/C06 harness/s_c06*.go corr/props/c06.py design/C06*.md known_findings.d/C06.json";;
+  gD2) OWN="coq/C07 coq/C16 coq/Dogfood harness/s_c07*.go harness/s_c16*.go corr/props/c07.py corr/props/c16.py design/C07* design/C16* known_findings.d/C07.json known_findings.d/C16.json repo_patches/fix-dogfood* repo_patches/fix-operator* repo_patches/*c07* repo_patches/*c16*";;
+  gE)  OWN="coq/C12 coq/C13 coq/Oracle harness/s_c12*.go harness/s_c13*.go corr/props/c12.py corr/props/c13.py design/C12*.md design/C13*.md known_findings.d/C12.json known_findings.d/C13.json repo_patches/*c12* repo_patches/*c13*";;
+  gF)  OWN="coq/C14 harness/s_c14*.go corr/props/c14.py design/C14* known_findings.d/C14.json repo_patches/*c14*";;
+  gG)  OWN="coq/C17 harness/s_c17*.go corr/props/c17.py design/C17*.md known_findings.d/C17.json repo_patches/*c17*";;
+  gH)  OWN="coq/C19 harness/s_c19*.go corr/props/c19.py design/C19*.md known_findings.d/C19.json repo_patches/fix-evm* repo_patches/*c19*";;
+  gI)  OWN="coq/C20 harness/s_c20*.go corr/props/c20.py design/C20*.md known_findings.d/C20.json repo_patches/*c20* repo_patches/fix-avs*";;
+  gJ)  OWN="coq/C10 harness/s_c10*.go corr/props/c10.py design/C10*.md known_findings.d/C10.json tools/c10scan repo_patches/*c10*";;
+  gK)  OWN="coq/C08 harness/s_c08*.go corr/props/c08.py design/C08*.md known_findings.d/C08.json tools/sitescan repo_patches/*c08*";;
+  gL)  OWN="coq/C09 coq/C11 harness/s_c09*.go harness/s_c11*.go corr/props/c09.py corr/props/c11.py design/C09*.md design/C11*.md known_findings.d/C09.json known_findings.d/C11.json repo_patches/*c09* repo_patches/*c11*";;
+  gM)  OWN="coq/C18 harness/s_c18*.go corr/props/c18.py design/C18*.md known_findings.d/C18.json repo_patches/*c18*";;
+  gN)  OWN="coq/C15 harness/s_c15*.go corr/props/c15.py design/C15* known_findings.d/C15.json";;
+  *) echo "unknown group"; exit 2;;
+esac
+cd "$SRC"
+FILES=$(for pat in $OWN; do for f in $pat; do [ -e "$f" ] && find "$f" -type f ! -name '*.vo' ! -name '*.vok' ! -name '*.vos' ! -name '*.glob' ! -name '.*.aux' ! -name '.lia.cache' ! -name '.nia.cache'; done; done | sort -u)
+for f in $FILES; do
+  if [ ! -f "/verif/$f" ] || ! cmp -s "$f" "/verif/$f"; then
+    echo "$f"
+    if [ "$APPLY" = "--apply" ]; then mkdir -p "/verif/$(dirname "$f")"; cp -p "$f" "/verif/$f"; fi
+  fi
 done
+# files the group deleted from its own directories
+for pat in $OWN; do for f in /verif/$pat; do [ -e "$f" ] || continue; find "$f" -type f ! -name '*.vo' ! -name '*.vok' ! -name '*.vos' ! -name '*.glob' ! -name '.*.aux' ! -name '.lia.cache' ! -name '.nia.cache' | while read x; do r="${x#/verif/}"; if [ ! -e "$SRC/$r" ]; then echo "DELETED in workspace: $r"; [ "$APPLY" = "--apply" ] && rm -f "$x"; fi; done; done; done
